@@ -259,6 +259,9 @@ def _attr_writes(P: Program, attr: str, include_mutation: bool = True, include_t
             # local aliases of the field:  x = <obj>.attr   (then x[k] = v / x.append(..) write the field)
             aliases = {n.targets[0].id for n in it if isinstance(n, ast.Assign) and len(n.targets) == 1 and isinstance(n.targets[0], ast.Name)
                        and isinstance(n.value, ast.Attribute) and n.value.attr == attr}
+            # for x in (obj.a, obj.b): x.remove(..)   — the loop variable stands for each of the listed fields in turn
+            aliases |= {n.target.id for n in it if isinstance(n, (ast.For, ast.AsyncFor)) and isinstance(n.target, ast.Name) and isinstance(n.iter, (ast.Tuple, ast.List))
+                        and any(isinstance(e, ast.Attribute) and e.attr == attr for e in n.iter.elts)}
             for n in it:
                 if aliases:
                     if isinstance(n, (ast.Assign, ast.AugAssign, ast.Delete)):
